@@ -907,6 +907,9 @@ func (self *AofChannel) Acked(commandResult *protocol.LockResultCommand) error {
 }
 
 func (self *AofChannel) Run() {
+	if vfNoBackground {
+		return
+	}
 	self.aof.handeLockAofChannel(self)
 	timer := time.NewTimer(200 * time.Millisecond)
 	defer stopAndDrainTimer(timer)
